@@ -12,7 +12,7 @@ from flipjump.fjm import fjm_reader
 from flipjump.interpreter.debugging.user_queries import ask_for_command, show_message
 from flipjump.utils.classes import RunStatistics
 from flipjump.utils.constants import MACRO_SEPARATOR_STRING
-from flipjump.utils.exceptions import FlipJumpException
+from flipjump.utils.exceptions import FlipJumpException, FlipJumpRuntimeMemoryException
 from flipjump.utils.functions import load_debugging_labels
 
 
@@ -216,9 +216,19 @@ class BreakpointHandler:
         @return the message box body for the debug-action query, for the current ip.
         """
         address = self.get_address_str(ip)
-        flip = self.get_address_str(mem.get_word(ip))
-        jump = self.get_address_str(mem.get_word(ip + mem.memory_width))
+        flip = self._get_word_str(mem, ip)
+        jump = self._get_word_str(mem, ip + mem.memory_width)
         return f'Address {address}.\n\n{op_counter} ops executed.\n\nflip {flip}.\n\njump {jump}.'
+
+    def _get_word_str(self, mem: fjm_reader.Reader, bit_address: int) -> str:
+        """
+        the op's word for the pause message. showing it must never stop the program: a word outside every
+        segment is shown as such (the op itself faults - or doesn't - when it really runs).
+        """
+        try:
+            return self.get_address_str(mem.get_word(bit_address))
+        except FlipJumpRuntimeMemoryException:
+            return '(outside the memory segments)'
 
     def handle_read_memory(self, target: str, mem: fjm_reader.Reader) -> None:
         """
